@@ -317,6 +317,18 @@ def r3_globals_cleared(ctx):
         if md is not None:
             mod_reset = mod_reset and any('MOD_CTX' in show(md.expr_operand(s.args[0], s.b, 'T')) for s in md.calls() if s.args)
         ctx.check(mod_reset, 'guard-drop-modctx', 'dropping the simulation statics guard clears the global module context', g.where())
+    # clearing the global module context drops the context that was stored there
+    sw = P.fns.get('des_net_utils::sync::swaplock::SwapLock::reset')
+    if sw is not None:
+        ctx.touch(sw)
+        drops = [b for b in sw.reachable() if sw.term(b)['k'] == 'drop' and not sw.is_cleanup(b) and any(e['k'] == 'deref' for e in sw.term(b)['p']['pr'])]
+        raw_writes = [s2 for s2 in sw.calls() if s2.name.split('::')[-1] in ('write', 'write_volatile', 'write_unaligned', 'replace') and 'ptr' in s2.name]
+        forgets = [s2 for s2 in sw.calls() if s2.name in ('std::mem::forget', 'std::mem::ManuallyDrop::new')]
+        ctx.check(bool(drops) and not raw_writes and not forgets, 'swaplock-reset-drops-old',
+                  'SwapLock::reset assigns through the cell (dropping the previous content): a module context still stored in MOD_CTX is released when the simulation is dropped',
+                  sw.where(), {'drop_of_old_value': len(drops), 'raw_pointer_writes': [s2.name for s2 in raw_writes]})
+    else:
+        ctx.violation('anchor:SwapLock::reset', 'unresolved-anchor SwapLock::reset')
     # Sim holds the guard, so dropping a Sim runs it
     sim = P.adts.get('des::net::runtime::Sim')
     if sim:
